@@ -211,3 +211,21 @@ Qed.
 Lemma count_channel_independent {T} (OP : ops T) wf wf' n col col' ix ds f f' :
   c_cnt (weighted_col OP wf n col ix ds f) = c_cnt (weighted_col OP wf' n col' ix ds f').
 Proof. unfold weighted_col, col_of_slots, count_of; cbn [c_cnt]. apply count_slots_indep. Qed.
+
+(* ---- flattening (get_sample_from_neighbour_info: data.ravel(), C order = row after row; the geometry's lons/lats are
+   flattened the same way): every value stays paired with the coordinate of its own (row, column), whatever the rows are.
+   The memory layout of the arrays is not an input of this law: only the logical rows are. *)
+Lemma combine_app_same {A B} (x : list A) (y : list B) r r' :
+  length x = length y -> combine (x ++ r) (y ++ r') = combine x y ++ combine r r'.
+Proof.
+  revert y. induction x as [|a x IH]; intros [|b y] H; cbn in *; try discriminate; [reflexivity|].
+  f_equal. apply IH. lia.
+Qed.
+
+Lemma ravel_keeps_locations {A B} (a : list (list A)) (b : list (list B)) :
+  Forall2 (fun x y => length x = length y) a b ->
+  combine (concat a) (concat b) = concat (map2 (@combine A B) a b).
+Proof.
+  induction 1 as [|x y a b H _ IH]; cbn; [reflexivity|].
+  rewrite (combine_app_same x y _ _ H), IH. reflexivity.
+Qed.
